@@ -305,8 +305,10 @@ def enumerate_specs(tier):
         for op in ("sigmoid", "tanh", "selu"):
             specs.append({"op": op, "dtype": dt, "shape": [1]})
         for op in ("softmax", "log_softmax"):
-            for n in ((2,) if tier == "quick" else (2, 3)):
-                specs.append({"op": op, "dtype": dt, "shape": [n]})
+            # rows of 2 logits in both tiers.  Rows of 3 were part of the thorough tier and never came to a verdict: softmax
+            # did not finish its path exploration within 90 minutes, log_softmax stopped after 241 paths on solver models that
+            # floating point cannot realise (inconclusive both, in every pass) - they are outside the bound now, and said so
+            specs.append({"op": op, "dtype": dt, "shape": [2]})
             # two rows whose maxima may be far apart (each row must be shifted by its own maximum)
             specs.append({"op": op, "dtype": dt, "shape": [2, 1]})
         for c in ((2,) if tier == "quick" else (2, 3)):
@@ -334,7 +336,9 @@ def main(tier, seed):
     return runner.finish(
         PROP, tier, seed, results, t0,
         bounds={"inputs and upstream gradients": "[-1e4, 1e4]", "targets": "[0, 1]", "shapes": "elementwise ops on 1 element, "
-                "softmax-type ops on rows of 2 (quick) / 2-3 (thorough)", "dtypes": ["float32", "float64"]},
+                "softmax / log_softmax on one row of 2 logits and on two rows of 1; cross-entropy on rows of 2 (quick) / 2-3 (thorough). "
+                "OUTSIDE: softmax / log_softmax on rows of 3 or more logits (tried in the thorough tier: no verdict within 90 minutes)",
+                "dtypes": ["float32", "float64"]},
         assumptions=["exact real arithmetic + IEEE inf/nan + exp overflow/underflow thresholds of the dtype; ROUNDING IS NOT MODELLED "
                      "(cancellation such as 1 - tanh^2 near saturation is outside the claim)",
                      "thresholds: exp(u) = inf for u >= 88.7229 / 709.7828, 0 for u <= -103.973 / -745.134; inside the 1e-3 wide "
